@@ -95,3 +95,179 @@ Example lookahead_tight :
   exists s, run Z Z fZ 0%Z (init Z Z [1; 2; 3]%Z 1) [Pull 0; Compute 0; TurnOk 0; SendOk 0; Advance 0; Pull 0] = Some s
             /\ next s = 2 /\ out s = [] /\ dropped s = false.
 Proof. eexists. split; [vm_compute; reflexivity|]. repeat split. Qed.
+
+(** * Third clause: the process-wide panic hook as a state machine (C09_Hook.v)
+
+    History of API calls -> which hook is installed -> what a panic does. [repaired] = /repo as it is now
+    (Pipe::new installs the exit hook for every threaded pipe; train_bpe chains to the hook it finds),
+    [pinned] = train_bpe as it was (replaces the hook by a print-only one: defect D12). [p_clob p = false]:
+    no code outside the crate installed a hook of its own since pipe p was created. *)
+From TU Require Import C09_Hook C09_HookProofs C09_HookAlt.
+
+(** Whatever the history of NewPipe / DropPipe / TrainBpe / ForeignHook / LockStdout / UnlockStdout / panics
+    that did not end the process: a panic in a worker of a live threaded pipe ends the process, without
+    printing first (so also while the consumer holds the stdout lock). *)
+Theorem hook_protects_live_pipes : forall ops s i p,
+  s = hexec repaired hinit ops ->
+  nth_error (h_pipes s) i = Some p -> p_live p = true -> p_threads p <> 0 -> p_clob p = false ->
+  panic_result s (PanicIn i) = Some (0, Some Exited).
+Proof. exact hook_protects_live_pipes_l. Qed.
+Print Assumptions hook_protects_live_pipes.
+
+Example hook_protects_live_pipes_ex :
+  let s := hexec repaired hinit [NewPipe 2; NewPipe 0; TrainBpe; DropPipe 1; NewPipe 3; PanicElsewhere; DropPipe 2;
+                                 TrainBpe; LockStdout] in
+  exists p, nth_error (h_pipes s) 0 = Some p /\ p_live p = true /\ p_threads p <> 0 /\ p_clob p = false
+            /\ h_hook s = HThenPrint HExit /\ h_locked s = true.
+Proof. eexists. cbn. repeat split. discriminate. Qed.
+
+(** The exit hook is sticky: once a threaded pipe has been created (and no foreign hook since), EVERY panic in
+    the process — in an unthreaded pipe's consumer, on an unrelated thread — ends the process, also after the
+    pipe has been dropped. *)
+Theorem hook_exit_sticky : forall ops s o t,
+  s = hexec repaired hinit ops ->
+  (exists p, In p (h_pipes s) /\ p_threads p <> 0 /\ p_clob p = false) ->
+  hpanic s o = Some t -> verdict s t = (0, Some Exited).
+Proof. exact hook_exit_sticky_l. Qed.
+Print Assumptions hook_exit_sticky.
+
+Example hook_exit_sticky_ex :
+  let s := hexec repaired hinit [NewPipe 1; DropPipe 0; TrainBpe] in
+  (exists p, In p (h_pipes s) /\ p_threads p <> 0 /\ p_clob p = false) /\ hpanic s PanicElsewhere = Some TOther.
+Proof. split; [eexists; split; [left; reflexivity|split; [discriminate|reflexivity]]|reflexivity]. Qed.
+
+(** The run of a whole process (what the harness child does, [hrun]) always meets the executable statement
+    [hook_ok] that check_C09 applies to the observed run. *)
+Theorem hook_run_meets_check : forall ops,
+  hook_ok ops (status_code (fst (hrun repaired hinit ops))) (snd (hrun repaired hinit ops)) = true.
+Proof. exact hrun_meets_check_l. Qed.
+Print Assumptions hook_run_meets_check.
+
+(** What an accepting [hook_ok] means: if operation k is the first panic in a worker of a live threaded
+    unclobbered pipe and the observed run got that far, it ended there with the exit status of the hook. *)
+Theorem hook_ok_sound : forall ops code counts k,
+  hook_ok ops code counts = true -> first_protected hinit ops = Some k -> k < length counts ->
+  length counts = S k /\ code = 1%Z.
+Proof. exact hook_ok_sound_l. Qed.
+Print Assumptions hook_ok_sound.
+
+Example hook_ok_sound_ex :
+  hook_ok [NewPipe 2; TrainBpe; PanicIn 0] 1 [0; 0; 0] = true
+  /\ first_protected hinit [NewPipe 2; TrainBpe; PanicIn 0] = Some 2.
+Proof. split; reflexivity. Qed.
+
+Theorem hook_first_protected_spec : forall ops s k,
+  first_protected s ops = Some k ->
+  exists i p, nth_error ops k = Some (PanicIn i)
+    /\ nth_error (h_pipes (hexec repaired s (firstn k ops))) i = Some p
+    /\ p_live p = true /\ p_threads p <> 0 /\ p_clob p = false
+    /\ forall j, j < k -> protected_panic (hexec repaired s (firstn j ops)) (nth j ops Nop) = false.
+Proof. exact first_protected_spec. Qed.
+Print Assumptions hook_first_protected_spec.
+
+(** ... and the pipe fields that statement reads evolve in the same way under every hook bookkeeping. *)
+Theorem hook_ghost_policy_independent : forall pol ops o,
+  protected_panic (hexec pol hinit ops) o = protected_panic (hexec repaired hinit ops) o.
+Proof. exact ghost_policy_independent_l. Qed.
+Print Assumptions hook_ghost_policy_independent.
+
+(** D12 as theorems about the pinned bookkeeping. The witness history of the real check, and: after EVERY history
+    that ends with train_bpe, no live threaded pipe is protected (blocked consumer, or a silently ended stream). *)
+Theorem hook_pinned_refuted :
+  hrun pinned hinit [NewPipe 2; TrainBpe; PanicIn 0] = (Blocked, [0; 0; 1])
+  /\ hrun pinned hinit [NewPipe 1; TrainBpe; PanicIn 0] = (Truncated, [0; 0; 1])
+  /\ first_protected hinit [NewPipe 2; TrainBpe; PanicIn 0] = Some 2
+  /\ hook_ok [NewPipe 2; TrainBpe; PanicIn 0] 42 [0; 0; 1] = false
+  /\ hrun repaired hinit [NewPipe 2; TrainBpe; PanicIn 0] = (Exited, [0; 0; 0]).
+Proof. exact hook_pinned_refuted_l. Qed.
+Print Assumptions hook_pinned_refuted.
+
+Theorem hook_pinned_train_unprotects : forall ops s i p,
+  s = hexec pinned hinit (ops ++ [TrainBpe]) ->
+  nth_error (h_pipes s) i = Some p -> p_live p = true -> p_threads p <> 0 ->
+  exists n st, panic_result s (PanicIn i) = Some (n, Some st) /\ st <> Exited.
+Proof. exact pinned_train_unprotects_l. Qed.
+Print Assumptions hook_pinned_train_unprotects.
+
+Example hook_pinned_train_unprotects_ex :
+  let s := hexec pinned hinit ([NewPipe 3; NewPipe 1; DropPipe 0] ++ [TrainBpe]) in
+  exists p, nth_error (h_pipes s) 1 = Some p /\ p_live p = true /\ p_threads p <> 0.
+Proof. eexists. cbn. repeat split. discriminate. Qed.
+
+(** Seeded change C09-2 (Pipe::new saves the previous hook, Drop puts it back): refuted by two overlapping pipes
+    dropped in creation order (`iter = new_iter()` of TrainLoader) ... *)
+Theorem hook_restore_on_drop_refuted :
+  exists ops i p, let s := hexec restore_on_drop hinit ops in
+    nth_error (h_pipes s) i = Some p /\ p_live p = true /\ p_threads p <> 0 /\ p_clob p = false
+    /\ panic_result s (PanicIn i) = Some (0, Some Blocked)
+    /\ hrun restore_on_drop hinit (ops ++ [PanicIn i]) = (Blocked, [0; 0; 0; 0]).
+Proof. exact restore_refuted_l. Qed.
+Print Assumptions hook_restore_on_drop_refuted.
+
+(** ... and safe exactly in the discipline its author had in mind: pipes dropped in reverse order of creation. *)
+Theorem hook_restore_on_drop_nested : forall ops s i p,
+  s = hexec restore_on_drop hinit ops -> well_nested restore_on_drop hinit ops = true ->
+  nth_error (h_pipes s) i = Some p -> p_live p = true -> p_threads p <> 0 -> p_clob p = false ->
+  panic_result s (PanicIn i) = Some (0, Some Exited).
+Proof. exact restore_nested_l. Qed.
+Print Assumptions hook_restore_on_drop_nested.
+
+Example hook_restore_on_drop_nested_ex :
+  let ops := [NewPipe 2; TrainBpe; NewPipe 3; NewPipe 0; NewPipe 1; DropPipe 3; DropPipe 2; TrainBpe; DropPipe 1] in
+  let s := hexec restore_on_drop hinit ops in
+  well_nested restore_on_drop hinit ops = true
+  /\ exists p, nth_error (h_pipes s) 0 = Some p /\ p_live p = true /\ p_threads p <> 0 /\ p_clob p = false.
+Proof. split; [reflexivity|]. eexists. cbn. repeat split. discriminate. Qed.
+
+(** Seeded change C09-4 (hook installed through a process-wide Once): refuted with the pinned train_bpe
+    (pipe; train_bpe; pipe) and, on the repaired tree, by a foreign hook between two pipes ... *)
+Theorem hook_once_refuted :
+  (exists ops i p, let s := hexec once_pinned hinit ops in
+     nth_error (h_pipes s) i = Some p /\ p_live p = true /\ p_threads p <> 0 /\ p_clob p = false
+     /\ panic_result s (PanicIn i) = Some (1, Some Blocked))
+  /\ (exists ops i p, let s := hexec once_chain hinit ops in
+     nth_error (h_pipes s) i = Some p /\ p_live p = true /\ p_threads p <> 0 /\ p_clob p = false
+     /\ panic_result s (PanicIn i) = Some (0, Some Blocked)).
+Proof. exact once_refuted_l. Qed.
+Print Assumptions hook_once_refuted.
+
+(** ... while in a process in which only this crate touches the hook the repaired train_bpe makes it harmless. *)
+Theorem hook_once_closed_world : forall ops s i p,
+  s = hexec once_chain hinit ops -> ~ In ForeignHook ops ->
+  nth_error (h_pipes s) i = Some p -> p_live p = true -> p_threads p <> 0 ->
+  panic_result s (PanicIn i) = Some (0, Some Exited).
+Proof. exact once_closed_world_l. Qed.
+Print Assumptions hook_once_closed_world.
+
+Example hook_once_closed_world_ex :
+  let ops := [NewPipe 1; DropPipe 0; TrainBpe; TrainBpe; NewPipe 2] in
+  ~ In ForeignHook ops
+  /\ exists p, nth_error (h_pipes (hexec once_chain hinit ops)) 1 = Some p /\ p_live p = true /\ p_threads p <> 0.
+Proof.
+  split; [intros H; repeat (destruct H as [H|H]; [discriminate|]); exact H|].
+  eexists. cbn. repeat split. discriminate.
+Qed.
+
+(** Why the repair runs the previous hook BEFORE it prints: a repair that prints first is refuted by a consumer
+    that holds the stdout lock (println! in the hook never returns), and is safe only while nobody does. *)
+Theorem hook_print_first_refuted :
+  exists ops i p, let s := hexec print_first hinit ops in
+    nth_error (h_pipes s) i = Some p /\ p_live p = true /\ p_threads p <> 0 /\ p_clob p = false
+    /\ panic_result s (PanicIn i) = Some (0, Some Blocked)
+    /\ hrun print_first hinit (ops ++ [PanicIn i]) = (Blocked, [0; 0; 0; 0]).
+Proof. exact print_first_refuted_l. Qed.
+Print Assumptions hook_print_first_refuted.
+
+Theorem hook_print_first_unlocked : forall ops s i p,
+  s = hexec print_first hinit ops -> h_locked s = false ->
+  nth_error (h_pipes s) i = Some p -> p_live p = true -> p_threads p <> 0 -> p_clob p = false ->
+  exists n, panic_result s (PanicIn i) = Some (n, Some Exited).
+Proof. exact print_first_unlocked_l. Qed.
+Print Assumptions hook_print_first_unlocked.
+
+Example hook_print_first_unlocked_ex :
+  let s := hexec print_first hinit [NewPipe 2; LockStdout; TrainBpe; TrainBpe; UnlockStdout] in
+  h_locked s = false
+  /\ (exists p, nth_error (h_pipes s) 0 = Some p /\ p_live p = true /\ p_threads p <> 0 /\ p_clob p = false)
+  /\ panic_result s (PanicIn 0) = Some (2, Some Exited).
+Proof. split; [reflexivity|split; [|reflexivity]]. eexists. cbn. repeat split. discriminate. Qed.
